@@ -10,7 +10,8 @@ package common
 //	                                  milliseconds (other goroutines keep running), logs "KILL <name> <k>"
 //	                                  and the process SIGKILLs itself
 //
-// Without either variable a crash point is a single atomic load.
+// Without either variable a crash point is a single atomic load. A harness that links the package
+// can also arm the crash later with VerifArmCrash (hits are then counted from the arming).
 
 import (
 	"os"
@@ -98,4 +99,19 @@ func VerifCrashPoint(name string, args ...uint64) {
 	for {
 		time.Sleep(time.Hour)
 	}
+}
+
+// VerifArmCrash selects the crash point at run time: the process kills itself at the k-th hit of name
+// counted from now (after stalling the hitting goroutine for delay).
+func VerifArmCrash(name string, k int64, delay time.Duration) {
+	c := &verifCrash
+	c.once.Do(verifCrashInit)
+	c.mu.Lock()
+	c.name, c.k, c.delay = name, k, delay
+	c.hits[name] = 0
+	if c.logf != nil {
+		c.logf.Write([]byte("ARM " + name + " " + strconv.FormatInt(k, 10) + "\n"))
+	}
+	c.mu.Unlock()
+	atomic.StoreInt32(&c.enabled, 1)
 }
